@@ -100,6 +100,10 @@ fn main() {
 			let code = child_pbt(&ctx, def.part.expect("part fn"), &args[4], seed, cases, std::path::Path::new(&args[8]));
 			std::process::exit(code);
 		}
+		if args[2] == "crash" && args.len() >= 6 {
+			// gv child crash run|check <scenario.json> <dir> [out.json]
+			std::process::exit(props::c09::child(&args[3..]));
+		}
 		std::process::exit(engine::worker::child_main(&args[2..]));
 	}
 	let id = args[1].to_uppercase();
